@@ -15,6 +15,8 @@ use vek::mat::repr_c::column_major as cm;
 use vek::mat::repr_c::row_major as rm;
 use vkit::regimes::{int_edge, Special};
 use vkit::vk::{self, MatN};
+
+use crate::owned::{El, E16, ES};
 use vkit::*;
 
 // ---------------------------------------------------------------------------------------------------------
@@ -74,13 +76,24 @@ where
     R: MatN<Sym, N> + IndexMut<(usize, usize), Output = Sym>,
     C: MatN<Sym, N> + IndexMut<(usize, usize), Output = Sym>,
 {
+    index_pair_case_with(cx, i, j, write, r, c, m, x, |r: &R| r.to_arr(), |c: &C| c.to_arr())
+}
+
+/// The same for any element type (non-`Copy` ones included); `ra` / `ca` read a value through its fields.
+#[allow(clippy::too_many_arguments)]
+pub fn index_pair_case_with<T, const N: usize, R, C>(cx: &mut Cx, i: usize, j: usize, write: bool, r: &mut R, c: &mut C, m: &mut [[T; N]; N], x: T, ra: impl Fn(&R) -> [[T; N]; N], ca: impl Fn(&C) -> [[T; N]; N]) -> CaseResult
+where
+    T: Clone + PartialEq + Debug,
+    R: IndexMut<(usize, usize), Output = T>,
+    C: IndexMut<(usize, usize), Output = T>,
+{
     let inr = i < N && j < N;
     if !write {
-        let gr = catch(|| r[(i, j)]);
-        let gc = catch(|| c[(i, j)]);
+        let gr = catch(|| r[(i, j)].clone());
+        let gc = catch(|| c[(i, j)].clone());
         if inr {
-            check_eq!(cx, gr, Ok(m[i][j]), "row-major m[({},{})]", i, j);
-            check_eq!(cx, gc, Ok(m[i][j]), "col-major m[({},{})]", i, j);
+            check_eq!(cx, gr, Ok(m[i][j].clone()), "row-major m[({},{})]", i, j);
+            check_eq!(cx, gc, Ok(m[i][j].clone()), "col-major m[({},{})]", i, j);
         } else {
             check!(
                 cx,
@@ -97,62 +110,70 @@ where
                 );
             }
         }
-        check_eq!(cx, r.to_arr(), *m, "row-major value after reading ({},{})", i, j);
-        check_eq!(cx, c.to_arr(), *m, "col-major value after reading ({},{})", i, j);
+        check_eq!(cx, ra(r), *m, "row-major value after reading ({},{})", i, j);
+        check_eq!(cx, ca(c), *m, "col-major value after reading ({},{})", i, j);
     } else {
         let gr = catch(|| {
-            r[(i, j)] = x;
+            r[(i, j)] = x.clone();
         });
         let gc = catch(|| {
-            c[(i, j)] = x;
+            c[(i, j)] = x.clone();
         });
         if inr {
             check!(cx, gr.is_ok() && gc.is_ok(), "m[({},{})] = x in range: row-major {}, col-major {}", i, j, outcome(&gr), outcome(&gc));
-            m[i][j] = x;
-            check_eq!(cx, r.to_arr(), *m, "row-major value after m[({},{})] = x", i, j);
-            check_eq!(cx, c.to_arr(), *m, "col-major value after m[({},{})] = x", i, j);
+            m[i][j] = x.clone();
+            check_eq!(cx, ra(r), *m, "row-major value after m[({},{})] = x", i, j);
+            check_eq!(cx, ca(c), *m, "col-major value after m[({},{})] = x", i, j);
         } else {
             check!(
                 cx,
                 gr.is_err() == gc.is_err(),
                 "m[({},{})] = x on a {}x{} matrix (no such element) depends on the layout: row-major {} and is now {:?}, col-major {} and is now {:?}; before {:?}",
-                i, j, N, N, outcome(&gr), r.to_arr(), outcome(&gc), c.to_arr(), m
+                i, j, N, N, outcome(&gr), ra(r), outcome(&gc), ca(c), m
             );
             if gr.is_err() {
-                check_eq!(cx, r.to_arr(), *m, "row-major value changed by a panicking m[({},{})] = x", i, j);
-                check_eq!(cx, c.to_arr(), *m, "col-major value changed by a panicking m[({},{})] = x", i, j);
+                check_eq!(cx, ra(r), *m, "row-major value changed by a panicking m[({},{})] = x", i, j);
+                check_eq!(cx, ca(c), *m, "col-major value changed by a panicking m[({},{})] = x", i, j);
             } else {
                 check!(
                     cx,
-                    r.to_arr() == c.to_arr(),
+                    ra(r) == ca(c),
                     "m[({},{})] = x on a {}x{} matrix (no such element) wrote different elements: row-major now {:?}, col-major now {:?}; before {:?}",
-                    i, j, N, N, r.to_arr(), c.to_arr(), m
+                    i, j, N, N, ra(r), ca(c), m
                 );
-                *m = r.to_arr();
+                *m = ra(r);
             }
         }
     }
     Ok(())
 }
 
-fn sym_mat<const N: usize>() -> [[Sym; N]; N] {
-    let mut m = [[Sym::atom(0); N]; N];
-    for i in 0..N {
-        for j in 0..N {
-            m[i][j] = Sym::atom((1 + i * N + j) as u32);
-        }
-    }
-    m
-}
+/// Element domains of the enumerated check: different size / alignment / Copy / drop-glue classes.
+const BOUNDS_DOMAINS: [&str; 5] = ["Sym (8 B)", "u8 (1 B)", "i32 (4 B)", "u128 newtype (16 B, align 16)", "String newtype (24 B, drop glue)"];
 
-/// Number of cases of `index_bounds`: for each size, every candidate pair, read and write.
+/// Number of cases of `index_bounds`: for each element domain and size, every candidate pair, read and write.
 pub fn index_bounds_total() -> u64 {
-    (2..=4usize).map(|n| (index_candidates(n).len() as u64).pow(2) * 2).sum()
+    BOUNDS_DOMAINS.len() as u64 * (2..=4usize).map(|n| (index_candidates(n).len() as u64).pow(2) * 2).sum::<u64>()
 }
 
-/// Enumerated: size x candidate i x candidate j x {read, write}.
+#[allow(clippy::too_many_arguments)]
+fn bounds_go<T, const N: usize, R, C>(cx: &mut Cx, i: usize, j: usize, write: bool, mk: impl Fn(usize) -> T, fr: impl Fn(&[[T; N]; N]) -> R, fc: impl Fn(&[[T; N]; N]) -> C, ra: impl Fn(&R) -> [[T; N]; N], ca: impl Fn(&C) -> [[T; N]; N]) -> CaseResult
+where
+    T: Clone + PartialEq + Debug,
+    R: IndexMut<(usize, usize), Output = T>,
+    C: IndexMut<(usize, usize), Output = T>,
+{
+    let mut m: [[T; N]; N] = std::array::from_fn(|a| std::array::from_fn(|b| mk(1 + a * N + b)));
+    let (mut r, mut c) = (fr(&m), fc(&m));
+    index_pair_case_with(cx, i, j, write, &mut r, &mut c, &mut m, mk(99), ra, ca)
+}
+
+/// Enumerated: element domain x size x candidate i x candidate j x {read, write}.
 pub fn index_bounds(idx: u64, cx: &mut Cx) -> CaseResult {
-    let mut rest = idx;
+    use crate::owned::OMat;
+    let per_dom = index_bounds_total() / BOUNDS_DOMAINS.len() as u64;
+    let dom = (idx / per_dom) as usize;
+    let mut rest = idx % per_dom;
     for n in 2..=4usize {
         let cand = index_candidates(n);
         let k = cand.len() as u64;
@@ -165,25 +186,24 @@ pub fn index_bounds(idx: u64, cx: &mut Cx) -> CaseResult {
         let (i, j) = (cand[((rest / 2) / k) as usize], cand[((rest / 2) % k) as usize]);
         cx.label(oob_label(n, i, j));
         cx.label(if write { "IndexMut" } else { "Index" });
+        cx.label(BOUNDS_DOMAINS[dom]);
         cx.set_nontrivial(i >= n || j >= n);
-        sample!(cx, "n={} (i,j)=({},{}) {}", n, i, j, if write { "write" } else { "read" });
-        let x = Sym::atom(99);
-        return match n {
-            2 => {
-                let mut m = sym_mat::<2>();
-                let (mut r, mut c) = (rm::Mat2::<Sym>::from_arr(&m), cm::Mat2::<Sym>::from_arr(&m));
-                index_pair_case::<2, _, _>(cx, i, j, write, &mut r, &mut c, &mut m, x)
-            }
-            3 => {
-                let mut m = sym_mat::<3>();
-                let (mut r, mut c) = (rm::Mat3::<Sym>::from_arr(&m), cm::Mat3::<Sym>::from_arr(&m));
-                index_pair_case::<3, _, _>(cx, i, j, write, &mut r, &mut c, &mut m, x)
-            }
-            _ => {
-                let mut m = sym_mat::<4>();
-                let (mut r, mut c) = (rm::Mat4::<Sym>::from_arr(&m), cm::Mat4::<Sym>::from_arr(&m));
-                index_pair_case::<4, _, _>(cx, i, j, write, &mut r, &mut c, &mut m, x)
-            }
+        sample!(cx, "{} n={} (i,j)=({},{}) {}", BOUNDS_DOMAINS[dom], n, i, j, if write { "write" } else { "read" });
+        macro_rules! sizes {
+            ($Tr:ident, $T:ty, $mk:expr) => {
+                match n {
+                    2 => bounds_go::<$T, 2, rm::Mat2<$T>, cm::Mat2<$T>>(cx, i, j, write, $mk, <rm::Mat2<$T> as $Tr<$T, 2>>::from_arr, <cm::Mat2<$T> as $Tr<$T, 2>>::from_arr, <rm::Mat2<$T> as $Tr<$T, 2>>::to_arr, <cm::Mat2<$T> as $Tr<$T, 2>>::to_arr),
+                    3 => bounds_go::<$T, 3, rm::Mat3<$T>, cm::Mat3<$T>>(cx, i, j, write, $mk, <rm::Mat3<$T> as $Tr<$T, 3>>::from_arr, <cm::Mat3<$T> as $Tr<$T, 3>>::from_arr, <rm::Mat3<$T> as $Tr<$T, 3>>::to_arr, <cm::Mat3<$T> as $Tr<$T, 3>>::to_arr),
+                    _ => bounds_go::<$T, 4, rm::Mat4<$T>, cm::Mat4<$T>>(cx, i, j, write, $mk, <rm::Mat4<$T> as $Tr<$T, 4>>::from_arr, <cm::Mat4<$T> as $Tr<$T, 4>>::from_arr, <rm::Mat4<$T> as $Tr<$T, 4>>::to_arr, <cm::Mat4<$T> as $Tr<$T, 4>>::to_arr),
+                }
+            };
+        }
+        return match dom {
+            0 => sizes!(MatN, Sym, |k: usize| Sym::atom(k as u32)),
+            1 => sizes!(MatN, u8, |k: usize| k as u8),
+            2 => sizes!(MatN, i32, |k: usize| -(k as i32)),
+            3 => sizes!(OMat, E16, |k: usize| E16::from_k(k as u64)),
+            _ => sizes!(OMat, ES, |k: usize| ES::from_k(k as u64)),
         };
     }
     fail!("index {} outside the enumerated space", idx)
